@@ -37,6 +37,7 @@ type Result struct {
 	WallS       float64        `json:"wall_s"`
 	LoopBound   int            `json:"loop_bound"`
 	InitSkipped int            `json:"init_calls_skipped"`
+	Witnesses   [][]inputRec   `json:"witnesses"`
 }
 
 var stdInit = map[string]bool{
@@ -69,25 +70,28 @@ func main() {
 		shard      = flag.String("shard", "", "k/n: explore only options ≡ k (mod n) of the first nondet_choice")
 		trace      = flag.Bool("trace", false, "trace executed SSA instructions")
 		extraInit  = flag.String("init", "", "comma separated extra packages whose init may run")
+		concLimit  = flag.Int("conc-limit", 0, "explore only the K smallest feasible values of each symbolic size/offset (0 = all)")
 		list       = flag.Bool("list", false, "list harness entry functions (H_*) and exit")
 	)
 	flag.Parse()
 	t0 := time.Now()
 
-	relPkg := strings.TrimPrefix(*pkgPat, "Havoc/")
+	// overlay root: <root>/<path relative to the module dir>/<file>.go is injected as
+	// <dir>/<relative path>/<file>.go (new harness files, or replacements of existing files)
 	overlay := map[string][]byte{}
 	if *overlayDir != "" {
-		files, _ := filepath.Glob(filepath.Join(*overlayDir, "*.go"))
-		for _, f := range files {
-			if strings.HasSuffix(f, "_test.go") {
-				continue
+		filepath.Walk(*overlayDir, func(p string, info os.FileInfo, err error) error {
+			if err != nil || info.IsDir() || !strings.HasSuffix(p, ".go") || strings.HasSuffix(p, "_test.go") {
+				return nil
 			}
-			b, err := os.ReadFile(f)
+			rel, _ := filepath.Rel(*overlayDir, p)
+			b, err := os.ReadFile(p)
 			if err != nil {
 				fatal("read overlay: %v", err)
 			}
-			overlay[filepath.Join(*dir, relPkg, filepath.Base(f))] = b
-		}
+			overlay[filepath.Join(*dir, rel)] = b
+			return nil
+		})
 	}
 	cfg := &packages.Config{
 		Mode: packages.NeedName | packages.NeedFiles | packages.NeedCompiledGoFiles | packages.NeedImports |
@@ -127,29 +131,32 @@ func main() {
 
 	// stub directives: //verif:stub <callee full name> on harness functions
 	stubs := map[string]*ssa.Function{}
-	for _, f := range pkgs[0].Syntax {
-		fname := pkgs[0].Fset.Position(f.Pos()).Filename
-		if !strings.HasPrefix(filepath.Base(fname), "zz_verif") {
-			continue
-		}
-		for _, d := range f.Decls {
-			fd, ok := d.(*ast.FuncDecl)
-			if !ok || fd.Doc == nil {
+	packages.Visit(pkgs, nil, func(p *packages.Package) {
+		for _, f := range p.Syntax {
+			fname := p.Fset.Position(f.Pos()).Filename
+			if !strings.HasPrefix(filepath.Base(fname), "zz_verif") {
 				continue
 			}
-			for _, c := range fd.Doc.List {
-				txt := strings.TrimSpace(strings.TrimPrefix(c.Text, "//"))
-				if strings.HasPrefix(txt, "verif:stub ") {
-					target := strings.TrimSpace(strings.TrimPrefix(txt, "verif:stub "))
-					sf := hp.Func(fd.Name.Name)
-					if sf == nil {
-						fatal("stub function %s not found in SSA", fd.Name.Name)
+			sp := prog.Package(p.Types)
+			for _, d := range f.Decls {
+				fd, ok := d.(*ast.FuncDecl)
+				if !ok || fd.Doc == nil {
+					continue
+				}
+				for _, c := range fd.Doc.List {
+					txt := strings.TrimSpace(strings.TrimPrefix(c.Text, "//"))
+					if strings.HasPrefix(txt, "verif:stub ") {
+						target := strings.TrimSpace(strings.TrimPrefix(txt, "verif:stub "))
+						sf := sp.Func(fd.Name.Name)
+						if sf == nil {
+							fatal("stub function %s not found in SSA", fd.Name.Name)
+						}
+						stubs[target] = sf
 					}
-					stubs[target] = sf
 				}
 			}
 		}
-	}
+	})
 
 	allowed := map[string]bool{}
 	for k, v := range stdInit {
@@ -219,6 +226,7 @@ func main() {
 		ex := newExplorer(i, solver)
 		ex.stubHits = map[string]int{}
 		ex.maxDump = *maxDump
+		ex.concLimit = *concLimit
 		if *dump != "" {
 			ex.dumpDir = filepath.Join(*dump, entry)
 		}
@@ -234,7 +242,7 @@ func main() {
 		solver.close()
 
 		res := Result{Entry: entry, Shard: *shard, Witness: *witness, Stats: ex.stats, Events: ex.events, Asserts: ex.assertLbl,
-			Stubs: ex.stubHits, Samples: ex.samples, LoopBound: *loopBound}
+			Stubs: ex.stubHits, Samples: ex.samples, LoopBound: *loopBound, Witnesses: ex.witnesses}
 		res.Solver = map[string]any{"binary": *z3bin, "queries": solver.Queries, "sat": solver.Sat, "unsat": solver.Unsat,
 			"unknown": solver.Unknown, "errors": solver.Errors, "time_s": solver.Time.Seconds(), "last_error": solver.lastErr,
 			"query_timeout_ms": *qtimeout}
